@@ -184,3 +184,21 @@ def Dict.searchDelta {V} (d : Dict V) (A : Automaton σ) (lo hi : Bound) : List 
     (fileTriples ((d.searchBlocks A lo hi).map (·.entries)))
 
 end TantivyModel.SSTable
+
+namespace TantivyModel.SSTable
+open TantivyModel
+variable {σ : Type}
+
+/-- mirrors: StreamerBuilder::into_stream with every parameter set — bounds, limit, automaton.
+`wam` = `automaton.will_always_match(&automaton.start())`: then the blocks come from
+file_slice_for_range (the limit applies, an inverted range may fail), otherwise from the pruned
+index walk (the limit is ignored); the Streamer filters by the automaton in both cases -/
+def Dict.searchLim {V} (d : Dict V) (A : Automaton σ) (wam : Bool) (lo hi : Bound)
+    (limit : Option Nat) : Option (List (Nat × Key × V)) :=
+  if wam then
+    match d.sliceFor lo hi limit with
+    | .panic => none
+    | .blocks _ bs => some (scanSearch A lo hi false (d.firstTerm lo) ((bs.map (·.entries)).flatten))
+  else some (d.search A lo hi)
+
+end TantivyModel.SSTable
